@@ -358,7 +358,7 @@ def check_conformity(repo: Repo, rep: Report, tier="quick"):
     n_zero = 0
     shape = CONF_SHAPE
     keys = sorted({shape.key(*e) for e in shape.edges}, key=str)
-    for seed in list(_seeds(shape, None))[:: (5 if tier == "quick" else 1)]:
+    for seed in list(_seeds(shape, None))[:: (5 if tier == "quick" else 3)]:
         pres = ", ".join("%s-%s@t%+d" % (k[0], k[1], o) for k in keys for o in IDS if seed[("present", k, repr(T(o)))]) or "nothing"
         for (start, delta) in ((1, 1), (1, 3)):
             window = [o for o in IDS if start <= o <= start + delta]
@@ -387,7 +387,7 @@ def check_conformity(repo: Repo, rep: Report, tier="quick"):
     for dup in ([1.0, 1.001], [2.5, 2.5]):
         shape = CONF_SHAPE
         keys = sorted({shape.key(*e) for e in shape.edges}, key=str)
-        for seed in list(_seeds(shape, None))[:: (7 if tier == "quick" else 1)]:
+        for seed in list(_seeds(shape, None))[:: (7 if tier == "quick" else 3)]:
             pres = ", ".join("%s-%s@t%+d" % (k[0], k[1], o) for k in keys for o in IDS if seed[("present", k, repr(T(o)))]) or "nothing"
             wit = "%s | present: %s | start=t+1, delta=3, alphas=%s, uniform labels" % (shape.name, pres, dup)
             n_dup += 1
